@@ -276,10 +276,12 @@ impl Net {
         }
         let seed = g.seed;
         let seq = g.seq;
+        let now = Instant::now().duration_since(g.start).as_millis() as u64;
         let mut extra = 0;
         let mut fired = false;
         for w in g.watches.iter_mut() {
-            if w.uses_left > 0 && cmd[0].eq_ignore_ascii_case(w.cmd.as_bytes()) && (local || !w.only_local) {
+            let name_matches = cmd[0].eq_ignore_ascii_case(w.cmd.as_bytes()) || w.also.iter().any(|n| cmd[0].eq_ignore_ascii_case(n.as_bytes()));
+            if w.uses_left > 0 && now >= w.from_ms && name_matches && (local || !w.only_local) {
                 w.uses_left -= 1;
                 extra = extra.max(hash3(seed ^ 0xd1ec7ed, chan, seq) % (w.extra_ms_max + 1));
                 if let (Some(tx), Some(key)) = (w.notify.as_ref(), cmd.get(1)) {
@@ -458,7 +460,11 @@ struct Mid {
 }
 
 pub struct Watch {
+    /// command names (upper case), any of them
     pub cmd: String,
+    pub also: Vec<String>,
+    /// active from this virtual time on
+    pub from_ms: u64,
     pub uses_left: u32,
     pub extra_ms_max: u64,
     /// only messages a proxy sends to a Redis node on its own host (on-demand pulls, forwarded commands)
